@@ -30,6 +30,9 @@ func (p *Pattern) MatchFromStart(s string, init int, budget uint64) (captures []
 		if r := recover(); r == budgetConsumed {
 			captures = nil
 			used = budget + 1
+		} else if r != nil {
+			// Not ours: do not hide a bug as "no match".
+			panic(r)
 		}
 	}()
 	matcher := patternMatcher{
@@ -49,6 +52,9 @@ func (p *Pattern) Match(s string, init int, budget uint64) (captures []Capture, 
 		if r := recover(); r == budgetConsumed {
 			captures = nil
 			used = budget + 1
+		} else if r != nil {
+			// Not ours: do not hide a bug as "no match".
+			panic(r)
 		}
 	}()
 	matcher := patternMatcher{
